@@ -49,10 +49,35 @@ def ends_open(prefix):
     return need != 0
 
 
-def check_prefix(prefix, d):
+def parse_how(data, how):
+    if how == 'bytes':
+        return mido.parse_all(bytes(data))
+    if how == 'generator':
+        return mido.parse_all(b for b in data)
+    if how == 'iter':
+        return mido.parse_all(iter(list(data)))
+    if how == 'bytewise':
+        p = mido.Parser()
+        out = []
+        for b in data:
+            p.feed_byte(b)
+            out.extend(p)
+        return out
+    if how == 'bytewise-late':
+        p = mido.Parser()
+        for b in data:
+            p.feed_byte(b)
+        return list(p)
+    return mido.parse_all(list(data))
+
+
+HOWS = ('list', 'bytes', 'generator', 'iter', 'bytewise', 'bytewise-late')
+
+
+def check_prefix(prefix, d, how='list'):
     try:
         base = mido.parse_all(list(prefix))
-        got = mido.parse_all(list(prefix) + R.ref_encode(d))
+        got = parse_how(list(prefix) + R.ref_encode(d), how)
         m = mk(d)
     except Exception as exc:  # noqa: BLE001
         return [fail('raises', f'prefix={prefix[:16]} msg={d}: {exc!r}', exc=exc_sig(exc))]
@@ -62,10 +87,10 @@ def check_prefix(prefix, d):
     return []
 
 
-def check_concat(dicts):
+def check_concat(dicts, how='list'):
     data = [b for d in dicts for b in R.ref_encode(d)]
     try:
-        got = mido.parse_all(data)
+        got = parse_how(data, how)
         want = [mk(d) for d in dicts]
     except Exception as exc:  # noqa: BLE001
         return [fail('raises', f'concat {dicts[:3]}: {exc!r}', exc=exc_sig(exc))]
@@ -74,7 +99,7 @@ def check_concat(dicts):
     return []
 
 
-def check_rt_sysex(payload, inserts):
+def check_rt_sysex(payload, inserts, how='list'):
     """inserts: list of (position in encoding 1..len-1, real-time byte), applied in order of position."""
     enc = [0xF0] + list(payload) + [0xF7]
     data = []
@@ -87,7 +112,7 @@ def check_rt_sysex(payload, inserts):
         data.append(b)
     rts = [b for pos in sorted(by_pos) for b in by_pos[pos]]
     try:
-        got = mido.parse_all(data)
+        got = parse_how(data, how)
     except Exception as exc:  # noqa: BLE001
         return [fail('raises', f'sysex {payload[:8]} inserts={inserts[:6]}: {exc!r}', exc=exc_sig(exc))]
     want = [mido.Message(R.REALTIME_BY_STATUS[b]) for b in rts] + [mido.Message('sysex', data=payload)]
@@ -99,12 +124,18 @@ def check_rt_sysex(payload, inserts):
 
 def run_case(case):
     k = case['kind']
+    how = case.get('how', 'list')
     if k == 'prefix':
-        return check_prefix(case['prefix'], case['msg'])
+        return check_prefix(case['prefix'], case['msg'], how)
     if k == 'concat':
-        return check_concat(case['msgs'])
+        return check_concat(case['msgs'], how)
     if k == 'rt':
-        return check_rt_sysex(case['payload'], [tuple(x) for x in case['inserts']])
+        return check_rt_sysex(case['payload'], [tuple(x) for x in case['inserts']], how)
+    if k == 'volume':
+        n = case['n']
+        dicts = [{'type': 'note_on', 'channel': i % 16, 'note': i % 128, 'velocity': 1 + i % 100, 'time': 0} if i % 5
+                 else {'type': 'sysex', 'data': [i % 128], 'time': 0} for i in range(n)]
+        return check_concat(dicts, how)
     raise KeyError(k)
 
 
@@ -114,6 +145,8 @@ def nontrivial(case):
         return len(case['prefix']) > 0 and ends_open(case['prefix'])
     if k == 'concat':
         return len(case['msgs']) >= 2
+    if k == 'volume':
+        return True
     return any(1 < pos < len(case['payload']) + 1 for pos, _ in case['inserts'])
 
 
@@ -175,6 +208,14 @@ def main(ctx):
                             if ch is not None:
                                 dd['channel'] = ch
                             ctx.check({'kind': 'prefix', 'prefix': enc[:k], 'msg': dd}, sample=False)
+    # every way of handing the bytes over, for every type as the final message behind a few prefixes
+    for t in R.ALL_TYPES:
+        for d in two_settings(t):
+            for prefix in ([], [0x90, 0x10], [0xF0, 0x01], [0x05, 0xF7]):
+                for how in HOWS:
+                    ctx.check({'kind': 'prefix', 'prefix': prefix, 'msg': d, 'how': how}, sample=False)
+    for how in HOWS:
+        ctx.check({'kind': 'volume', 'n': 3000, 'how': how}, sample=False)
     # real-time inside sysex: exhaustive one and two insertions
     maxpay = 8 if ctx.tier == 'thorough' else 5
     for L in range(0, maxpay + 1):
@@ -188,10 +229,11 @@ def main(ctx):
                 ctx.check({'kind': 'rt', 'payload': payload, 'inserts': [[p1, b1], [p2, b2]]}, sample=False)
     n = 1500 if ctx.tier == 'quick' else 40000
     pre = st.fixed_dictionaries({'kind': st.just('prefix'), 'prefix': S.byte_stream(max_chunks=6),
-                                 'msg': S.msg_dict(time=st.just(0), max_sysex=40)})
+                                 'msg': S.msg_dict(time=st.just(0), max_sysex=40), 'how': st.sampled_from(HOWS)})
     ctx.hyp(pre, n, label='prefix')
     cat = st.fixed_dictionaries({'kind': st.just('concat'),
-                                 'msgs': st.lists(S.msg_dict(time=st.just(0), max_sysex=40), max_size=12)})
+                                 'msgs': st.lists(S.msg_dict(time=st.just(0), max_sysex=40), max_size=12),
+                                 'how': st.sampled_from(HOWS)})
     ctx.hyp(cat, n // 2, label='concat', seed_offset=1)
 
     @st.composite
@@ -199,5 +241,5 @@ def main(ctx):
         payload = draw(S.sysex_payload(200))
         k = draw(st.integers(1, 12))
         ins = sorted((draw(st.integers(1, len(payload) + 1)), draw(st.sampled_from(RT_BYTES))) for _ in range(k))
-        return {'kind': 'rt', 'payload': payload, 'inserts': [list(x) for x in ins]}
+        return {'kind': 'rt', 'payload': payload, 'inserts': [list(x) for x in ins], 'how': draw(st.sampled_from(HOWS))}
     ctx.hyp(rt_cases(), n // 2, label='rt', seed_offset=2)
